@@ -1,34 +1,27 @@
 (* C02 — property theorems.  Only statements, each closed by [exact], each followed by
    Print Assumptions.
 
-   State of "HullSpec (hull_label m pts slack) for ALL inputs" (= HullLabelCorrect) and of
-   HullNoOverflow; both are explicit premises of the two batch theorems
-   C02_convex_hull_ijv_correct_partial / C02_convex_hull_correct_partial, both hold on every point
-   set of the 4x4, 3x4, 5x3 grids (Finite theorems below), and the verified checker tests them on
-   every output.
-     Proved for all inputs: (a) C02_vertices_subset; local convexity of every non-wrapping output
-       triple C02_emit_chain_convex; (c) for the whole lower chain C02_lower_pass_contains; (c) for
-       the whole upper chain of the guard-free second loop C02_upper_chain_contains (mirror image,
-       C02_emit_above_step); writes of both loops stay inside the label's rows
-       (C02_lower_loop_within, C02_upper_loop_within), the output overruns them by at most the one
-       row of the final write (C02_no_overflow_partial).
-     REFUTED: stack_nodup (C02_stack_nodup_refuted): with slack > 0 the second loop pushes a point
-       of the lower chain a second time (V-shaped sets); with slack 0 the guard blocks exactly
-       that push.  The guard lemmas must therefore be stated with "at most the top element
-       repeats a lower-chain vertex, and it is removed by the next EMIT".
-     Missing lemmas: pivot_protected (the second loop never pops the right-most vertex R, so the
-       real stack is  upper chain ++ R :: lower part  and C02_upper_chain_contains transfers);
-       turn_strict (triples around R and around start_j are strict after the final prune: by the
-       two containment theorems, unless all pixels are collinear); dead_top (a repeated top
-       element is popped by the next EMIT: from cross(x,p,t) >= 0, cross(x,p,q) >= 0 follows
-       cross(t,p,q) <= 0) => guard_irrelevant and final_write_strict => HullNoOverflow.
-     hull_unique up to rotation: vertex SET and list up to permutation are determined
-       (C02_hull_vertices_unique); missing: successor_unique. *)
+   State after round 4.  PROVED for all inputs: HullNoOverflow (C02_hull_no_overflow: the label's output
+   never outgrows its own rows - C19's write bound, no premise left), guard_irrelevant
+   (C02_guard_irrelevant, C02_slack_irrelevant: the in-place guard, hence the pixels of other labels,
+   never change a label's polygon), dead_top (C02_dead_core + dup_dead), pivot_protected
+   (C02_pivot_protected), and clause (c) for the COMPLETE output polygon of the kernel as written
+   (C02_hull_label_contains_all: every pixel on the inner side of every edge, incl. the edges at the
+   right-most vertex and the closing edge); with (a) C02_vertices_subset, no repeated vertex
+   (fin_stack3) and local convexity of the non-wrapping triples C02_emit_chain_convex.
+   STILL A PREMISE of the two batch theorems: HullLabelCorrect = HullSpec pts (hull_label m pts slack).
+   Missing lemmas: turn_strict - every cyclic triple of the output is STRICTLY convex.  Reduction
+   available: a non-strict triple is collinear; with CONVEX (chain) resp. the stop condition of the
+   final prune it is a U-turn; both of its edges are supporting (C02_hull_label_contains_all), so all
+   pixels are collinear; then every chain triple is a U-turn, impossible for >= 4 vertices and, for 3,
+   contradicted by the final prune.  Plus the one-column label and the <= 2-vertex clauses of HullSpec
+   (hs_one, hs_two).  hull_unique up to rotation: missing successor_unique.
+   (stack_nodup is refuted: C02_stack_nodup_refuted.) *)
 From Coq Require Import ZArith List Bool Permutation.
 From Centro Require Import Base.Sx Model.Hull Spec.HullSpec
   Proofs.HullEmit Proofs.HullGeom Proofs.HullPerm Proofs.HullBatch Proofs.HullTop
   Proofs.HullOutline Proofs.HullUnique Proofs.HullBelow Proofs.HullAbove Proofs.HullCorrect
-  Proofs.HullImage Proofs.HullWrites Proofs.HullSweep Proofs.HullSweep44 Proofs.HullSweep34 Proofs.HullSweep53.
+  Proofs.HullImage Proofs.HullWrites Proofs.HullGuard Proofs.HullPoly Proofs.HullSweep Proofs.HullSweep44 Proofs.HullSweep34 Proofs.HullSweep53.
 Import ListNotations.
 Open Scope Z_scope.
 
@@ -134,6 +127,54 @@ Theorem C02_no_overflow_partial : forall m pts slack, 0 <= slack ->
 Proof. exact no_overflow_partial. Qed.
 Print Assumptions C02_no_overflow_partial.
 
+(* dead_top, arithmetic core: a vertex q of the lower chain (predecessor x) pushed a second time on top
+   of t is not CONVEX against any later pixel q' *)
+Theorem C02_dead_core : forall x q t q' : pt, snd x < snd q -> snd q < snd t -> snd q' < snd q ->
+  0 <= cross x q t -> 0 <= cross x q q' -> cross t q q' <= 0.
+Proof. exact dead_core. Qed.
+Print Assumptions C02_dead_core.
+
+(* guard_irrelevant: the kernel with its in-place guard equals the guard-free kernel, for every label the
+   kernel may see and every slack >= 0; so a label's polygon does not depend on the slack left by the
+   other labels (the independence clause, at kernel level) *)
+Theorem C02_guard_irrelevant : forall m pts slack, label_ok m pts -> 0 <= slack ->
+  hull_label m pts slack = hull_free m pts.
+Proof. exact guard_irrelevant. Qed.
+Print Assumptions C02_guard_irrelevant.
+
+Theorem C02_slack_irrelevant : forall m pts s1 s2, label_ok m pts -> 0 <= s1 -> 0 <= s2 ->
+  hull_label m pts s1 = hull_label m pts s2.
+Proof. exact slack_irrelevant. Qed.
+Print Assumptions C02_slack_irrelevant.
+
+(* HullNoOverflow, Full: kernel_pre (label_ok, 0 <= slack = start_idx - outidx) -> the rows written for
+   the label end before pixidx = outidx + slack + nv *)
+Theorem C02_hull_no_overflow : forall m pts slack, label_ok m pts -> 0 <= slack ->
+  zlen (hull_label m pts slack) <= slack + zlen pts.
+Proof. exact hull_no_overflow. Qed.
+Print Assumptions C02_hull_no_overflow.
+
+(* pivot_protected: the second loop (guard-free) never pops the right-most vertex R *)
+Theorem C02_pivot_protected : forall m p0 rest, label_ok m (p0 :: rest) -> snd p0 < snd (last (p0 :: rest) p0) ->
+  let pts := p0 :: rest in let sj := snd p0 in let ej := snd (last pts p0) in
+  let upper := build_upper pts in
+  let st1 := fold_left (lower_emit m (build_lower m pts)) (cols_up sj ej) [] in
+  let cols2 := rev (cols_up (sj + 1) ej) in
+  let stU := fold_left (upper_emit_free upper) cols2 [] in
+  let st2F := fold_left (upper_emit_free upper) cols2 st1 in
+  st2F = stU ++ base m p0 rest /\ (forall d, last stU d = (upper ej, ej)) /\ stU <> [] /\
+  prune st2F (upper sj, sj) = prune stU (upper sj, sj) ++ base m p0 rest.
+Proof. exact pivot_protected. Qed.
+Print Assumptions C02_pivot_protected.
+
+(* clause (c), complete, for the kernel as written *)
+Theorem C02_hull_label_contains_all : forall m p0 rest slack, label_ok m (p0 :: rest) -> 0 <= slack ->
+  snd p0 < snd (last (p0 :: rest) p0) ->
+  exists FS, hull_label m (p0 :: rest) slack = rev FS /\ FS <> [] /\
+    forall s, In s (p0 :: rest) -> edges_ok FS s /\ forall d, 0 <= cross (hd d FS) (last FS d) s.
+Proof. exact hull_label_contains_all. Qed.
+Print Assumptions C02_hull_label_contains_all.
+
 (* the proposed lemma stack_nodup is false for the faithful model *)
 Theorem C02_stack_nodup_refuted : exists m pts slack, label_ok m pts /\ 0 <= slack /\ ~ NoDup (stack2 m pts slack)
   /\ NoDup (stack2 m pts 0) /\ hull_label m pts slack = hull_label m pts 0.
@@ -149,22 +190,22 @@ Print Assumptions C02_outline_hull_is_full_hull.
 
 (* the batch function: lexsort, request walk with slack >= 0, reorder, absent labels — all discharged;
    the two per-label facts are the premises *)
-Theorem C02_convex_hull_ijv_correct_partial : HullLabelCorrect -> HullNoOverflow ->
+Theorem C02_convex_hull_ijv_correct_partial : HullLabelCorrect ->
   forall ijv indexes, NoDup indexes -> (forall x, In x ijv -> 0 <= r_i x) ->
   let res := fst (convex_hull_ijv ijv indexes) in
   BatchSpec ijv indexes (rows_of res) (counts_of res).
-Proof. exact convex_hull_ijv_correct_partial. Qed.
+Proof. exact convex_hull_ijv_correct_partial2. Qed.
 Print Assumptions C02_convex_hull_ijv_correct_partial.
 
 (* the image entry point, against ALL pixels of every requested label *)
-Theorem C02_convex_hull_correct_partial : HullLabelCorrect -> HullNoOverflow ->
+Theorem C02_convex_hull_correct_partial : HullLabelCorrect ->
   forall im indexes, NoDup indexes ->
   match convex_hull im indexes with
   | HEmpty2 => indexes = []
   | HBlank n => n = length indexes /\ forall l, pts_of (all_ijv im) l = []
   | HRows r => BatchSpec (all_ijv im) indexes (rows_of (fst r)) (counts_of (fst r))
   end.
-Proof. exact convex_hull_correct_partial. Qed.
+Proof. exact convex_hull_correct_partial2. Qed.
 Print Assumptions C02_convex_hull_correct_partial.
 
 (* the outline pre-filter only drops pixels that are no vertex of the hull of the full set *)
